@@ -24,8 +24,25 @@ class Rejected(Exception):
         self.exc = exc
 
 
-def make_context(decl, backend):
-    """Context with every variable and its primed copy declared."""
+_CACHE = {}
+
+
+def make_context(decl, backend, fresh=False):
+    """Context with every variable and its primed copy declared.  The last
+    context per back end is re-used for the same declarations (only
+    add_expr is called on it) unless `fresh`."""
+    key = tuple(decl.items())
+    if not fresh:
+        hit = _CACHE.get(backend)
+        if hit is not None and hit[0] == key:
+            return hit[1]
+    ctx = _new_context(decl, backend)
+    if not fresh:
+        _CACHE[backend] = (key, ctx)
+    return ctx
+
+
+def _new_context(decl, backend):
     ctx = _fol.Context()
     if backend == 'autoref':
         import dd.autoref as _bdd
@@ -89,7 +106,7 @@ def predicate_table(decl, tree, slots, backend, defs=None, text=None):
 
     defs: list of (name, tree) registered with Context.define first (then
     add_expr(..., with_ops=True)).  Raises Rejected if the library raises."""
-    ctx = make_context(decl, backend)
+    ctx = make_context(decl, backend, fresh=bool(defs))
     s = text if text is not None else fol_ast.render(tree)
     err = u = None
     try:
